@@ -241,6 +241,11 @@ pub fn field_value(b: &[u8], f: &Field) -> Option<u64> {
     }
 }
 
+/// Half-width of the dense window of values tried around the true value of a field.
+pub const DENSE: u64 = 8;
+/// Upper bound of the number of values `field_values` returns (12 boundary values, <= 10 layout-aware, 14 dense).
+pub const MAX_FIELD_VALUES: usize = 40;
+
 /// The structured mutation values for a field: {0, 1, v-1, v+1, 0x7f, 0x80, 0xffff, 2^31-1, 2^31, 2^32-1}
 /// as far as the field's width allows (8-byte and text fields additionally get 2^63 and 2^64-1), without the
 /// current value, deduplicated, in this order.
@@ -260,9 +265,18 @@ pub fn field_values(b: &[u8], f: &Field) -> Vec<u64> {
     if max == u64::MAX {
         c.extend_from_slice(&[1 << 63, u64::MAX]);
     }
+    // layout-aware values from the structural walk, then a dense window around the true value, so that "exactly
+    // one byte / element short or long" boundaries are hit deterministically
+    c.extend_from_slice(&f.extra);
+    if let Some(v) = v {
+        for d in 2..=DENSE {
+            c.push(v.wrapping_sub(d) & max);
+            c.push(v.wrapping_add(d) & max);
+        }
+    }
     let mut out = Vec::new();
     for x in c {
-        if x <= max && Some(x) != v && !out.contains(&x) {
+        if x <= max && Some(x) != v && !out.contains(&x) && out.len() < MAX_FIELD_VALUES {
             out.push(x);
         }
     }
